@@ -20,15 +20,44 @@
 //   of the thread's plan caches; `C09:data-race`: ThreadSanitizer report during the scenario
 //   (counted through __tsan_on_report).  CORR `keys`: the final cache keys of every thread are
 //   the ones the sequential LRU/factory model (Model/Lru.lean) computes from that thread's calls.
+//   Every input (signals, filter coefficients) belongs to an INPUT CLASS: unit-scale, subnormal (1e-308..1e-321),
+//   products/quotients that underflow, mixed (exact zeros in runs, -0, subnormal and power-of-two elements), rounding
+//   ties, near-DBL_MAX (sums overflow to inf, inf-inf = NaN), non-finite elements — all built from bit patterns, so
+//   the inputs themselves do not depend on the floating-point mode of the generating thread.  Programs contain
+//   calls that THROW (irfft with odd n / wrong spectrum size, const solve on a shared or own plan with a wrong-size
+//   input); ORACLE `C09:result-differs` also compares every valid call with the same program run WITHOUT the failing
+//   calls.  "Large" scenarios: the first plan of a length above 2^16 / 2^17 (k*49152, k*65536, primes and products of
+//   primes above 2^16) is created by several threads at once, after smaller transforms.
+// Part 4 (floating-point environment, thread history): the per-thread FP environment (fegetround, MXCSR control
+//   bits incl. FTZ/DAZ, x87 control word) is read before and after EVERY library call in every thread and in main;
+//   ORACLE `C09:fp-environment-changed`: a library call left a modified FP mode behind (witness = the call).
+//   A pool of worker threads is created BEFORE the first library call of the process ("early" threads: they cannot
+//   inherit anything a library call did to main's environment).  The main thread computes a probe program
+//   (every transform kind x every input class) single-threaded BEFORE any other thread made a library call, then
+//   early threads, late threads, a thread created by an early thread and a thread created by a late thread after
+//   its calls evaluate the same calls on the same inputs from a barrier (half of them interleaved with throwing
+//   calls), then main computes it again AFTER all threads finished: ORACLE `C09:result-differs`: all bit-identical.
+// Part 5 (process histories): one-shot-per-process effects (lazy tables, "once" initialisers) disarm themselves,
+//   so the harness re-executes itself (`--history k`) as fresh child processes in which the FIRST library calls of
+//   the process are made by several worker threads at once (subnormal probes / large first plans / throwing
+//   first calls) and the main thread recomputes everything single-threaded only afterwards.
 #include "common.hpp"
 #include <dsplib.h>
 #include <atomic>
 #include <thread>
+#include <mutex>
+#include <condition_variable>
 #include <fstream>
 #include <filesystem>
 #include <set>
 #include <algorithm>
 #include <memory>
+#include <cfenv>
+#include <sys/wait.h>
+#if defined(__x86_64__) || defined(__i386__)
+#include <xmmintrin.h>
+#define C09_X86 1
+#endif
 using namespace dsplib;
 
 namespace dsplib {
@@ -516,7 +545,7 @@ static void report() {
 }   // namespace scan
 
 // ================================================================================================
-// helpers shared by parts 2 and 3
+// helpers shared by parts 2..5
 // ================================================================================================
 struct SpinBarrier {
     std::atomic<int> arrived{0};
@@ -528,21 +557,241 @@ struct SpinBarrier {
     }
 };
 
+static uint64_t bits_of(double d) { uint64_t u; std::memcpy(&u, &d, 8); return u; }
+static double from_bits(uint64_t u) { double d; std::memcpy(&d, &u, 8); return d; }
+
 static bool same_bits(const std::vector<double>& a, const std::vector<double>& b) {
     return a.size() == b.size() && (a.empty() || std::memcmp(a.data(), b.data(), a.size() * sizeof(double)) == 0);
 }
-static void push(std::vector<double>& r, const arr_cmplx& y) { for (int i = 0; i < y.size(); ++i) { r.push_back(y[i].re); r.push_back(y[i].im); } }
-static void push(std::vector<double>& r, const arr_real& y) { for (int i = 0; i < y.size(); ++i) r.push_back(y[i]); }
+// results are compared bit for bit (sign of zero included); every NaN is one value (payload/sign are not part of the result)
+static inline double canon(double v) { return v != v ? from_bits(0x7ff8000000000000ULL) : v; }
+static void push(std::vector<double>& r, const arr_cmplx& y) { for (int i = 0; i < y.size(); ++i) { r.push_back(canon(y[i].re)); r.push_back(canon(y[i].im)); } }
+static void push(std::vector<double>& r, const arr_real& y) { for (int i = 0; i < y.size(); ++i) r.push_back(canon(y[i])); }
 static void push(std::vector<double>& r, const arr_int& y) { for (int i = 0; i < y.size(); ++i) r.push_back(double(y[i])); }
 
-static arr_cmplx in_c(vh::Rng& g, int n) {
+// ------------------------------------------------------------------------------------------------
+// floating-point environment of the calling thread
+struct FpEnv {
+    int round = 0;        // fegetround()
+    unsigned mx = 0;      // x86: MXCSR control bits (DAZ 6, exception masks 7..12, rounding control 13..14, FTZ 15); aarch64: FPCR
+    unsigned cw = 0;      // x86: x87 control word
+};
+static inline bool operator==(const FpEnv& a, const FpEnv& b) { return a.round == b.round && a.mx == b.mx && a.cw == b.cw; }
+static inline bool operator!=(const FpEnv& a, const FpEnv& b) { return !(a == b); }
+
+static inline FpEnv fpenv_now() {
+    FpEnv e;
+    e.round = std::fegetround();
+#if defined(C09_X86)
+    e.mx = _mm_getcsr() & 0xFFC0u;   // the sticky status flags (bits 0..5) are not part of the mode
+    unsigned short cw = 0;
+    __asm__ __volatile__("fnstcw %0" : "=m"(cw));
+    e.cw = cw;
+#elif defined(__aarch64__)
+    unsigned long long fpcr = 0;
+    __asm__ __volatile__("mrs %0, fpcr" : "=r"(fpcr));
+    e.mx = unsigned(fpcr);
+#endif
+    return e;
+}
+static std::string hex4(unsigned v) { char b[16]; std::snprintf(b, sizeof b, "0x%04x", v); return b; }
+static std::string fpenv_json(const FpEnv& e) {
+    return "{\"fegetround\":" + std::to_string(e.round) + ",\"mxcsr_control\":\"" + hex4(e.mx) + "\",\"x87_control_word\":\"" + hex4(e.cw) + "\"}";
+}
+static std::string fpenv_changed(const FpEnv& b, const FpEnv& a) {
+    std::string s;
+    auto add = [&](const char* w) { if (!s.empty()) s += " "; s += w; };
+    if (b.round != a.round) add("fegetround");
+#if defined(C09_X86)
+    const unsigned d = b.mx ^ a.mx;
+    if (d & 0x8000u) add("MXCSR.FTZ");
+    if (d & 0x0040u) add("MXCSR.DAZ");
+    if (d & 0x6000u) add("MXCSR.RC");
+    if (d & 0x1F80u) add("MXCSR.exception-masks");
+    if (b.cw != a.cw) add("x87-control-word");
+#else
+    if (b.mx != a.mx) add("FPCR");
+#endif
+    return s;
+}
+static FpEnv fpenv_default() {
+    FpEnv e;
+    e.round = FE_TONEAREST;
+#if defined(C09_X86)
+    e.mx = 0x1F80u;
+    e.cw = 0x037Fu;
+#endif
+    return e;
+}
+
+struct EnvLog {   // one per thread (no sharing): witnesses are reported by the main thread after the join
+    std::vector<std::string> fails;
+    long long checks = 0;
+    std::map<char, std::pair<long long, long long>> kind;   // call kind -> (checked, changed)
+};
+static std::string esc(const std::string& s) {
+    std::string r;
+    for (char c : s) { if (c == '"' || c == '\\') r += '\\'; if ((unsigned char)c >= 0x20) r += c; }
+    return r;
+}
+static void env_after(EnvLog& L, char kind, const FpEnv& before, const std::string& who, const std::function<std::string()>& call) {
+    const FpEnv a = fpenv_now();
+    ++L.checks;
+    auto& k = L.kind[kind];
+    ++k.first;
+    if (a != before) ++k.second;
+    if (a != before && L.fails.size() < 4)
+        L.fails.push_back("{\"what\":\"a library call returned with a modified floating-point environment of the calling thread\",\"thread\":\"" + esc(who) +
+                          "\",\"call\":\"" + esc(call()) + "\",\"changed\":\"" + fpenv_changed(before, a) + "\",\"before\":" + fpenv_json(before) +
+                          ",\"after\":" + fpenv_json(a) + "}");
+}
+static long long g_env_checks = 0;
+static std::map<char, std::pair<long long, long long>> g_env_kind;
+static void env_report(EnvLog& L) {   // main thread only
+    for (auto& f : L.fails) out.fail("C09:fp-environment-changed", f);
+    g_env_checks += L.checks;
+    out.n_oracle += L.checks;
+    for (auto& kv : L.kind) { g_env_kind[kv.first].first += kv.second.first; g_env_kind[kv.first].second += kv.second.second; }
+    L.fails.clear();
+    L.kind.clear();
+    L.checks = 0;
+}
+// CORR `fpenv <kind> <calls>`: the number of calls of this kind that changed the caller's FP environment; the model's
+// table (Model/Conc.lean, `writesFpEnv`) says which entry points write it: none
+static void env_corr() {
+    for (auto& kv : g_env_kind)
+        out.corr(std::string("fpenv ") + kv.first + " " + std::to_string(kv.second.first), std::to_string(kv.second.second));
+}
+
+// ------------------------------------------------------------------------------------------------
+// worker threads created before the first library call of the process
+class Pool {
+    struct W {
+        std::thread th;
+        std::mutex m;
+        std::condition_variable cv;
+        std::function<void()> job;
+        bool has = false, quit = false, idle = true;
+        FpEnv env0;
+    };
+    std::vector<std::unique_ptr<W>> w_;
+
+public:
+    explicit Pool(int n) {
+        for (int i = 0; i < n; ++i) {
+            w_.push_back(std::make_unique<W>());
+            W* x = w_.back().get();
+            x->th = std::thread([x] {
+                std::unique_lock<std::mutex> lk(x->m);
+                x->env0 = fpenv_now();
+                for (;;) {
+                    x->cv.wait(lk, [x] { return x->has || x->quit; });
+                    if (x->quit) return;
+                    auto j = std::move(x->job);
+                    x->has = false;
+                    lk.unlock();
+                    j();
+                    lk.lock();
+                    x->idle = true;
+                    x->cv.notify_all();
+                }
+            });
+        }
+    }
+    int size() const { return int(w_.size()); }
+    void start(int i, std::function<void()> j) {
+        W* x = w_[size_t(i)].get();
+        std::lock_guard<std::mutex> lk(x->m);
+        x->job = std::move(j);
+        x->has = true;
+        x->idle = false;
+        x->cv.notify_all();
+    }
+    void wait(int i) {
+        W* x = w_[size_t(i)].get();
+        std::unique_lock<std::mutex> lk(x->m);
+        x->cv.wait(lk, [x] { return x->idle && !x->has; });
+    }
+    FpEnv env0(int i) {
+        W* x = w_[size_t(i)].get();
+        std::lock_guard<std::mutex> lk(x->m);
+        return x->env0;
+    }
+    ~Pool() {
+        for (auto& x : w_) {
+            { std::lock_guard<std::mutex> lk(x->m); x->quit = true; x->cv.notify_all(); }
+            x->th.join();
+        }
+    }
+};
+
+// ------------------------------------------------------------------------------------------------
+// input classes.  Every value is assembled from integer bit patterns (or is an exact, normal constant), so the
+// inputs do not depend on the rounding / flush mode of the thread that generates them.
+enum InClass { IC_UNIT = 0, IC_DENORM, IC_UNDERFLOW, IC_MIXED, IC_TIES, IC_HUGE, IC_NONFINITE, N_IC };
+static const char* const IC_NAME[N_IC] = {"unit", "subnormal", "underflow", "mixed", "ties", "huge", "nonfinite"};
+
+struct InGen {
+    int cls;
+    int kbits = 52;       // subnormal: number of significant mantissa bits (2^(kbits-1074): 8 -> 1e-321, 44 -> 1e-310, 52 -> 2e-308)
+    int ebase = 1;        // underflow / huge: biased exponent base
+    int zero_from = -1, zero_len = 0;
+    int i = 0;
+    InGen(vh::Rng& g, int cls_, int n) : cls(cls_) {
+        if (cls == IC_DENORM) { static const int kb[] = {8, 11, 20, 33, 41, 44, 45, 48, 52}; kbits = kb[g.range(0, 8)]; }
+        if (cls == IC_UNDERFLOW) { static const int eb[] = {493 /*2^-530: products underflow*/, 23 /*2^-1000*/, 8, 2, 1 /*smallest normals: any scaling below 1 underflows*/}; ebase = eb[g.range(0, 4)]; }
+        if (cls == IC_HUGE) ebase = 2044 - (g.range(0, 3) == 0 ? g.range(0, 12) : 0);
+        if (cls == IC_MIXED && n > 2 && g.coin()) { zero_from = g.range(0, n - 1); zero_len = g.range(1, n); }
+    }
+    double next(vh::Rng& g) {
+        const int idx = i++;
+        const uint64_t r = g.next();
+        const uint64_t sign = (r & 1) << 63;
+        switch (cls) {
+        case IC_DENORM: return from_bits(sign | (g.next() >> (64 - kbits)));
+        case IC_UNDERFLOW: return from_bits(sign | (uint64_t(ebase + int((r >> 1) % 3)) << 52) | (g.next() >> 12));
+        case IC_HUGE: return from_bits(sign | (uint64_t(ebase + int((r >> 1) % 3)) << 52) | (g.next() >> 12));
+        case IC_TIES: {
+            static const double t[] = {1.0, 0x1p-53, 0x1.8p-52, 0x1.0000000000001p0, 0x1p53, 0x1.0000000000001p53, 0x1.0000000000001p-1, 0x1.fffffffffffffp-1,
+                                       0x1.8p0, 0x1p-52, 0x1.fffffffffffffp52, 3.0, 0x1p-54, 0x1.5555555555555p-2, 0.1, 0x1p-1022};
+            const double v = t[(r >> 1) % 16];
+            return (r & 1) ? -v : v;
+        }
+        case IC_MIXED: {
+            if (idx >= zero_from && idx < zero_from + zero_len) return 0.0;
+            switch ((r >> 1) % 12) {
+            case 0: return 0.0;
+            case 1: return -0.0;
+            case 2: return from_bits(sign | (g.next() >> (12 + (r >> 8) % 44)));            // subnormal element
+            case 3: return from_bits(sign | (uint64_t(1023 - 30 + (r >> 8) % 61) << 52));   // exact power of two
+            case 4: return from_bits(sign | (uint64_t(1) << 52));                           // smallest normal
+            case 5: return from_bits(sign | 1);                                             // smallest subnormal
+            default: return g.sym();
+            }
+        }
+        case IC_NONFINITE: {
+            switch ((r >> 1) % 16) {
+            case 0: return from_bits(0x7ff0000000000000ULL);
+            case 1: return from_bits(0xfff0000000000000ULL);
+            case 2: return from_bits(0x7ff8000000000000ULL);
+            default: return g.sym();
+            }
+        }
+        default: return g.sym();
+        }
+    }
+};
+
+static arr_cmplx in_c(vh::Rng& g, int n, int cls = IC_UNIT) {
     arr_cmplx x(n);
-    for (int i = 0; i < n; ++i) x[i] = cmplx_t(g.sym(), g.sym());
+    InGen q(g, cls, 2 * n);
+    for (int i = 0; i < n; ++i) { const double re = q.next(g); const double im = q.next(g); x[i] = cmplx_t(re, im); }
     return x;
 }
-static arr_real in_r(vh::Rng& g, int n) {
+static arr_real in_r(vh::Rng& g, int n, int cls = IC_UNIT) {
     arr_real x(n);
-    for (int i = 0; i < n; ++i) x[i] = g.sym();
+    InGen q(g, cls, n);
+    for (int i = 0; i < n; ++i) x[i] = q.next(g);
     return x;
 }
 
@@ -551,15 +800,20 @@ static arr_real in_r(vh::Rng& g, int n) {
 // ================================================================================================
 struct RngEv { int t; char kind; int arg; };   // kind 'k' rng(arg) ; 'u' arg calls of rand() ; 'v' rand(arg) (vector form)
 
-static std::vector<std::vector<double>> rng_run(int nthreads, const std::vector<RngEv>& evs, bool interleaved) {
+static std::vector<std::vector<double>> rng_run(int nthreads, const std::vector<RngEv>& evs, bool interleaved, EnvLog& elog) {
     // values drawn per event; interleaved: all threads alive, events executed in list order (turn counter);
-    // else: thread after thread, each running only its own events
+    // else: thread after thread, each running only its own events.  Events never run at the same time (turn counter /
+    // join), so `elog` is handed from thread to thread with a happens-before edge.
     std::vector<std::vector<double>> vals(evs.size());
     auto exec = [&](size_t i) {
         const RngEv& e = evs[i];
+        const FpEnv b = fpenv_now();
         if (e.kind == 'k') dsplib::rng(e.arg);
         else if (e.kind == 'u') { for (int j = 0; j < e.arg; ++j) vals[i].push_back(dsplib::rand()); }
         else { push(vals[i], dsplib::rand(e.arg)); }
+        env_after(elog, e.kind == 'k' ? 'k' : 'u', b, "rng-interleaving thread " + std::to_string(e.t), [&] {
+            return std::string(e.kind == 'k' ? "rng(" : e.kind == 'u' ? "rand() x " : "rand(") + std::to_string(e.arg) + (e.kind == 'u' ? "" : ")");
+        });
     };
     if (interleaved) {
         std::atomic<size_t> turn{0};
@@ -611,12 +865,14 @@ static void part_rng(vh::Rng& g, bool thorough) {
         }
         js += "]}";
         const int r0 = g_tsan_reports;
+        EnvLog elog;
         vh::set_current("C09:data-race", js);
-        vh::watch(120);
-        const auto a = rng_run(nt, evs, true);
-        const auto b = rng_run(nt, evs, false);
+        vh::watch(600);
+        const auto a = rng_run(nt, evs, true, elog);
+        const auto b = rng_run(nt, evs, false, elog);
         vh::unwatch();
         vh::clear_current();
+        env_report(elog);
         if (g_tsan_reports != r0) out.fail("C09:data-race", js);
         std::string rhs;
         long long nvals = 0;
@@ -642,6 +898,13 @@ static const int SMALL[] = {1, 2, 4, 8};
 static const int COMPOSITE[] = {6, 9, 10, 12, 15, 18, 20, 24, 30, 36, 45, 60, 63, 75, 90, 94, 100, 120, 122, 225, 360, 1000, 1001, 1210};
 static const int PRIME_S[] = {3, 5, 7, 11, 13, 17, 19, 23, 29, 31, 37, 41};
 static const int PRIME_L[] = {43, 47, 53, 61, 127, 251, 509, 1021};
+// lengths above 2^16 / 2^17, exact multiples of 49152 and 65536, primes and products of two primes > 251 next to 2^16
+// (trial division has to leave the built-in prime table), 2 * prime
+static const int LARGE[] = {65536, 131072, 98304 /*2*49152*/, 147456 /*3*49152*/, 196608 /*3*65536*/, 65537 /*prime*/, 67591 /*257*263*/,
+                            131074 /*2*65537*/, 66049 /*257^2*/, 70747 /*263*269*/, 65539 /*prime*/, 131071 /*prime*/, 69632 /*17*4096*/, 262144};
+static const int LARGE_Q[] = {65536, 131072, 98304, 65537, 67591, 131074};   // quick tier: the cheaper ones
+static const int LARGE_NT[] = {65537, 67591, 131074, 66049, 70747, 65539, 131071};   // a cofactor >= 251^2 without a factor <= 251
+static const int LARGE_BLK[] = {65536, 131072, 98304, 147456, 196608, 69632, 262144};   // multiples of large block sizes
 template<size_t N> static int pick(vh::Rng& g, const int (&a)[N]) { return a[g.range(0, int(N) - 1)]; }
 
 static int pick_len(vh::Rng& g, bool even_only = false) {
@@ -657,51 +920,69 @@ static int pick_len(vh::Rng& g, bool even_only = false) {
         if (!even_only || n % 2 == 0) return n;
     }
 }
-static const char* len_class(int n) {
+// classification without a library call (child histories must not call the library before the worker threads do)
+static const char* len_class_nolib(int n) {
     if (n == 1 || n == 2 || n == 4 || n == 8) return "small";
-    if (ispow2(n)) return "pow2";
-    if (isprime(n)) return n <= 41 ? "prime_le41" : "prime_gt41";
+    if (n > 65535) return "large";
+    if ((n & (n - 1)) == 0) return "pow2";
+    bool prime = n > 1;
+    for (int d = 2; d * d <= n; ++d) if (n % d == 0) { prime = false; break; }
+    if (prime) return n <= 41 ? "prime_le41" : "prime_gt41";
     return "composite";
 }
 
 // shared plan objects (const solve from many threads)
 struct Shared {
     std::string desc;
-    std::function<void(vh::Rng&, std::vector<double>&)> use;   // const solve on the shared object with a private input
+    // const solve on the shared object with a private input of class `cls`; `dn` != 0: input longer by dn (the call must throw)
+    std::function<void(vh::Rng&, int cls, int dn, std::vector<double>&)> use;
 };
 
-static std::vector<Shared> make_shared_plans(std::vector<std::shared_ptr<void>>& keep) {
+static std::vector<Shared> make_shared_plans(std::vector<std::shared_ptr<void>>& keep, EnvLog& elog, const std::string& who) {
     std::vector<Shared> s;
+    FpEnv eb;
+    auto pre = [&] { eb = fpenv_now(); };
+    auto post = [&](const std::string& d) { env_after(elog, 'C', eb, who, [&] { return "constructor " + d; }); };
     auto add_c = [&](int n) {
+        pre();
         auto p = std::make_shared<const FftPlan>(n);
+        post("FftPlan(" + std::to_string(n) + ")");
         keep.push_back(std::const_pointer_cast<FftPlan>(p));
-        s.push_back({"FftPlan(" + std::to_string(n) + "):" + len_class(n), [p, n](vh::Rng& g, std::vector<double>& r) { push(r, p->solve(in_c(g, n))); }});
+        s.push_back({"FftPlan(" + std::to_string(n) + "):" + len_class_nolib(n), [p, n](vh::Rng& g, int cls, int dn, std::vector<double>& r) { push(r, p->solve(in_c(g, n + dn, cls))); }});
     };
     auto add_r = [&](int n) {
+        pre();
         auto p = std::make_shared<const FftPlanR>(n);
+        post("FftPlanR(" + std::to_string(n) + ")");
         keep.push_back(std::const_pointer_cast<FftPlanR>(p));
-        s.push_back({"FftPlanR(" + std::to_string(n) + "):" + len_class(n) + (n % 2 ? ":odd" : ":even"),
-                     [p, n](vh::Rng& g, std::vector<double>& r) { push(r, (*p)(in_r(g, n))); }});
+        s.push_back({"FftPlanR(" + std::to_string(n) + "):" + len_class_nolib(n) + (n % 2 ? ":odd" : ":even"),
+                     [p, n](vh::Rng& g, int cls, int dn, std::vector<double>& r) { push(r, (*p)(in_r(g, n + dn, cls))); }});
     };
     auto add_i = [&](int n) {
+        pre();
         auto p = std::make_shared<const IfftPlan>(n);
+        post("IfftPlan(" + std::to_string(n) + ")");
         keep.push_back(std::const_pointer_cast<IfftPlan>(p));
-        s.push_back({"IfftPlan(" + std::to_string(n) + "):" + len_class(n), [p, n](vh::Rng& g, std::vector<double>& r) { push(r, p->solve(in_c(g, n))); }});
+        s.push_back({"IfftPlan(" + std::to_string(n) + "):" + len_class_nolib(n), [p, n](vh::Rng& g, int cls, int dn, std::vector<double>& r) { push(r, p->solve(in_c(g, n + dn, cls))); }});
     };
     auto add_ir = [&](int n) {
+        pre();
         auto p = std::make_shared<const IfftPlanR>(n);
+        post("IfftPlanR(" + std::to_string(n) + ")");
         keep.push_back(std::const_pointer_cast<IfftPlanR>(p));
-        s.push_back({"IfftPlanR(" + std::to_string(n) + "):half=" + len_class(n / 2), [p, n](vh::Rng& g, std::vector<double>& r) {
-                         auto x = in_c(g, n / 2 + 1);
+        s.push_back({"IfftPlanR(" + std::to_string(n) + "):half=" + len_class_nolib(n / 2), [p, n](vh::Rng& g, int cls, int dn, std::vector<double>& r) {
+                         auto x = in_c(g, n / 2 + 1 + dn, cls);
                          x[0].im = 0;
                          x[n / 2].im = 0;
                          push(r, p->solve(x));
                      }});
     };
     auto add_z = [&](int n, int m) {
+        pre();
         auto p = std::make_shared<const CztPlan>(n, m, expj(-2 * pi / (m + 0.5)), cmplx_t(1.0, 0.0));
+        post("CztPlan(" + std::to_string(n) + "," + std::to_string(m) + ")");
         keep.push_back(std::const_pointer_cast<CztPlan>(p));
-        s.push_back({"CztPlan(" + std::to_string(n) + "," + std::to_string(m) + ")", [p, n](vh::Rng& g, std::vector<double>& r) { push(r, p->solve(in_c(g, n))); }});
+        s.push_back({"CztPlan(" + std::to_string(n) + "," + std::to_string(m) + ")", [p, n](vh::Rng& g, int cls, int dn, std::vector<double>& r) { push(r, p->solve(in_c(g, n + dn, cls))); }});
     };
     // every plan kind: small / pow2 / composite (flat and deep trees, with prime>41 leaf) / prime<=41 / prime>41
     for (int n : {1, 2, 4, 8, 64, 1024, 60, 360, 1001, 122, 3, 7, 41, 43, 127}) add_c(n);
@@ -715,72 +996,162 @@ static std::vector<Shared> make_shared_plans(std::vector<std::shared_ptr<void>>&
     return s;
 }
 
-struct Op { char kind; int a = 0, b = 0; };
+struct Op { char kind; int a = 0, b = 0; int cls = IC_UNIT; };
 // kinds: c fft(cmplx a)  f ifft(a)  r rfft(real a)  i irfft(rfft(real a), a)  z czt(a, b)  x xcorr(real a, real b)
 //        w welch(real a, winlen b)  s resample(real a, p/q coded in b)  F new FftFilter(h of length a)  p filter.process(a samples)
 //        P new own FftPlan(a)  q own plan solve   g randn(a)  u rand(a)  j randi(b, a)  k rng(a)  S shared plan a
-static std::string op_str(const Op& o) {
+// calls that must THROW (and leave no trace in later calls):
+//        e irfft(spectrum, odd a)   m irfft(spectrum of a/2+2 bins, even a >= 6)   T shared plan a, input one sample too long
+//        Q own plan, input one sample too long
+static bool is_failing(char k) { return k == 'e' || k == 'm' || k == 'T' || k == 'Q'; }
+static std::string op_str(const Op& o) {   // CORR form (the model does not depend on the data)
     std::string s(1, o.kind);
     s += std::to_string(o.a);
     if (o.kind == 'z' || o.kind == 'x' || o.kind == 'w' || o.kind == 's' || o.kind == 'j') s += ":" + std::to_string(o.b);
     return s;
 }
+static std::string op_full(const Op& o) {   // witness form: with the input class
+    std::string s = op_str(o);
+    if (o.cls != IC_UNIT) s += std::string("/") + IC_NAME[o.cls];
+    return s;
+}
+static std::string op_desc(const Op& o, const std::vector<Shared>& shared) {
+    const std::string a = std::to_string(o.a), b = std::to_string(o.b);
+    std::string d;
+    switch (o.kind) {
+    case 'c': d = "fft(arr_cmplx[" + a + "])"; break;
+    case 'f': d = "ifft(arr_cmplx[" + a + "])"; break;
+    case 'r': d = "rfft(arr_real[" + a + "])"; break;
+    case 'i': d = "irfft(rfft(arr_real[" + a + "]), " + a + ")"; break;
+    case 'z': d = "czt(arr_cmplx[" + a + "], " + b + ", w, 1)"; break;
+    case 'x': d = "xcorr(arr_real[" + a + "], arr_real[" + b + "])"; break;
+    case 'w': d = "welch(arr_real[" + a + "], winlen " + b + ")"; break;
+    case 's': d = "resample(arr_real[" + a + "], " + std::to_string(o.b / 100) + ", " + std::to_string(o.b % 100) + ")"; break;
+    case 'F': d = "FftFilter(arr_real[" + a + "])"; break;
+    case 'p': d = "FftFilter::process(arr_real[" + a + "])"; break;
+    case 'P': d = "FftPlan(" + a + ")"; break;
+    case 'q': d = "FftPlan::solve on the thread's own plan"; break;
+    case 'g': d = "randn(" + a + "), randn()"; break;
+    case 'u': d = "rand(" + a + "), rand()"; break;
+    case 'j': d = "randi(" + b + ", " + a + "), randi(" + b + ")"; break;
+    case 'k': d = "rng(" + a + ")"; break;
+    case 'S': d = "const solve on shared " + (size_t(o.a) < shared.size() ? shared[size_t(o.a)].desc : a); break;
+    case 'T': d = "const solve on shared " + (size_t(o.a) < shared.size() ? shared[size_t(o.a)].desc : a) + " with an input one sample too long (throws)"; break;
+    case 'e': d = "irfft(arr_cmplx[" + std::to_string(o.a / 2 + 1) + "], " + a + ") with odd n (throws)"; break;
+    case 'm': d = "irfft(arr_cmplx[" + std::to_string(o.a / 2 + 2) + "], " + a + ") with a wrong number of bins (throws)"; break;
+    case 'Q': d = "FftPlan::solve on the thread's own plan with an input one sample too long (throws)"; break;
+    default: d = "?"; break;
+    }
+    return d + ", input class " + IC_NAME[o.cls];
+}
 
 struct ThreadResult {
     std::vector<std::vector<double>> res;
+    std::vector<char> threw;
     std::vector<int> kc, kr;
-    std::string err;
+    std::string first_err;
+    EnvLog elog;
+    FpEnv env_start, env_end;
+};
+
+struct RunOpt {
+    bool skip_failing = false;    // the program with its failing calls removed
+    bool query_keys = true;
+    std::string who = "thread";
 };
 
 // runs one thread program; every input derives from (seed, thread index, op index)
-static void run_program(const std::vector<Op>& ops, uint64_t seed, int tid, const std::vector<Shared>& shared, ThreadResult& R) {
+static void run_program(const std::vector<Op>& ops, uint64_t seed, int tid, const std::vector<Shared>& shared, ThreadResult& R, const RunOpt& opt) {
     R.res.assign(ops.size(), {});
+    R.threw.assign(ops.size(), 0);
+    R.env_start = fpenv_now();
     std::unique_ptr<FftFilter> flt;
     std::unique_ptr<FftPlan> own;
     int own_n = 0;
-    try {
-        for (size_t i = 0; i < ops.size(); ++i) {
-            const Op& o = ops[i];
-            vh::Rng g(seed * 1000003ULL + uint64_t(tid) * 7919ULL + i * 104729ULL + 17);
-            auto& r = R.res[i];
+    for (size_t i = 0; i < ops.size(); ++i) {
+        const Op& o = ops[i];
+        if (opt.skip_failing && is_failing(o.kind)) continue;
+        vh::Rng g(seed * 1000003ULL + uint64_t(tid) * 7919ULL + i * 104729ULL + 17);
+        auto& r = R.res[i];
+        const int c = o.cls;
+        const FpEnv eb = fpenv_now();
+        try {
             switch (o.kind) {
-            case 'c': push(r, fft(in_c(g, o.a))); break;
-            case 'f': push(r, ifft(in_c(g, o.a))); break;
-            case 'r': push(r, rfft(in_r(g, o.a))); break;
-            case 'i': push(r, irfft(rfft(in_r(g, o.a)), o.a)); break;
-            case 'z': push(r, czt(in_c(g, o.a), o.b, expj(-2 * pi / (o.b + 1.5)), cmplx_t(1.0, 0.0))); break;
-            case 'x': push(r, xcorr(in_r(g, o.a), in_r(g, o.b))); break;
-            case 'w': { auto w = welch(in_r(g, o.a), o.b); push(r, w.pxx); push(r, w.f); break; }
-            case 's': push(r, resample(in_r(g, o.a), o.b / 100, o.b % 100)); break;
-            case 'F': flt = std::make_unique<FftFilter>(in_r(g, o.a)); break;
-            case 'p': if (flt) push(r, flt->process(in_r(g, o.a))); break;
+            case 'c': push(r, fft(in_c(g, o.a, c))); break;
+            case 'f': push(r, ifft(in_c(g, o.a, c))); break;
+            case 'r': push(r, rfft(in_r(g, o.a, c))); break;
+            case 'i': push(r, irfft(rfft(in_r(g, o.a, c)), o.a)); break;
+            case 'z': push(r, czt(in_c(g, o.a, c), o.b, expj(-2 * pi / (o.b + 1.5)), cmplx_t(1.0, 0.0))); break;
+            case 'x': { const arr_real x1 = in_r(g, o.a, c); const arr_real x2 = in_r(g, o.b, c); push(r, xcorr(x1, x2)); break; }
+            case 'w': { auto w = welch(in_r(g, o.a, c), o.b); push(r, w.pxx); push(r, w.f); break; }
+            case 's': push(r, resample(in_r(g, o.a, c), o.b / 100, o.b % 100)); break;
+            case 'F': flt = std::make_unique<FftFilter>(in_r(g, o.a, c)); break;
+            case 'p': if (flt) push(r, flt->process(in_r(g, o.a, c))); break;
             case 'P': own = std::make_unique<FftPlan>(o.a); own_n = o.a; break;
-            case 'q': if (own) push(r, own->solve(in_c(g, own_n))); break;
+            case 'q': if (own) push(r, own->solve(in_c(g, own_n, c))); break;
             case 'g': push(r, randn(o.a)); r.push_back(randn()); break;
             case 'u': push(r, dsplib::rand(o.a)); r.push_back(dsplib::rand()); break;
             case 'j': push(r, randi(o.b, o.a)); r.push_back(double(randi(o.b))); break;
             case 'k': dsplib::rng(o.a); break;
-            case 'S': shared[size_t(o.a)].use(g, r); break;
+            case 'S': shared[size_t(o.a)].use(g, c, 0, r); break;
+            case 'T': shared[size_t(o.a)].use(g, c, 1, r); break;
+            case 'e': push(r, irfft(in_c(g, o.a / 2 + 1, c), o.a)); break;
+            case 'm': push(r, irfft(in_c(g, o.a / 2 + 2, c), o.a)); break;
+            case 'Q': if (own) push(r, own->solve(in_c(g, own_n + 1, c))); break;
             default: break;
             }
+        } catch (const std::exception& e) {
+            R.threw[i] = 1;
+            r.clear();
+            if (R.first_err.empty()) R.first_err = e.what();
         }
-    } catch (const std::exception& e) {
-        R.err = e.what();
+        env_after(R.elog, o.kind, eb, opt.who, [&] { return op_desc(o, shared); });
     }
-    R.kc = verif_fft_cache_keys();
-    R.kr = verif_rfft_cache_keys();
+    if (opt.query_keys) {
+        const FpEnv eb = fpenv_now();
+        R.kc = verif_fft_cache_keys();
+        R.kr = verif_rfft_cache_keys();
+        env_after(R.elog, 'K', eb, opt.who, [] { return std::string("verif_fft_cache_keys / verif_rfft_cache_keys"); });
+    }
+    R.env_end = fpenv_now();
 }
 
-static std::vector<Op> gen_program(vh::Rng& g, int len, int nshared, int flavour) {
-    // flavour 0: general mix; 1: shared-plan heavy; 2: transform heavy (cache churn); 3: rng heavy
+struct GenOpt {
+    int flavour = 0;      // 0: general mix; 1: shared-plan heavy; 2: transform heavy (cache churn); 3: rng heavy
+    int cls = IC_UNIT;    // input class of the scenario (every 4th call draws its own)
+    int fail_pct = 0;     // percentage of calls that throw
+    bool fail_first = false;
+};
+
+static Op gen_failing(vh::Rng& g, int nshared, bool have_p) {
+    Op o;
+    for (;;) {
+        switch (g.range(0, 3)) {
+        case 0: o.kind = 'e'; o.a = 2 * g.range(1, 60) + 1; if (g.range(0, 5) == 0) o.a = 2 * pick_len(g) + 1; return o;
+        case 1: o.kind = 'm'; o.a = 2 * g.range(3, 60); if (g.range(0, 5) == 0) o.a = 2 * pick_len(g) + 6; return o;
+        case 2: if (nshared > 0) { o.kind = 'T'; o.a = g.range(0, nshared - 1); return o; } break;
+        default: if (have_p) { o.kind = 'Q'; return o; } break;
+        }
+    }
+}
+
+static std::vector<Op> gen_program(vh::Rng& g, int len, int nshared, const GenOpt& go) {
+    const int flavour = go.flavour;
     std::vector<Op> ops;
     bool have_f = false, have_p = false;
     for (int i = 0; i < len; ++i) {
         Op o;
+        if ((go.fail_pct > 0 && g.range(0, 99) < go.fail_pct) || (go.fail_first && i == 0)) {
+            o = gen_failing(g, nshared, have_p);
+            o.cls = go.cls;
+            ops.push_back(o);
+            continue;
+        }
         int r = g.range(0, 99);
         if (flavour == 1 && r < 70) r = 95;
         if (flavour == 2 && r >= 40) r = r % 40;
         if (flavour == 3 && r < 60) r = 80 + r % 12;
+        if (nshared == 0 && r >= 92) r = r % 40;
         if (r < 10) { o.kind = 'c'; o.a = pick_len(g); }
         else if (r < 18) { o.kind = 'f'; o.a = pick_len(g); }
         else if (r < 28) { o.kind = 'r'; o.a = pick_len(g); }
@@ -798,54 +1169,108 @@ static std::vector<Op> gen_program(vh::Rng& g, int len, int nshared, int flavour
         else if (r < 89) { o.kind = 'j'; o.a = g.range(0, 20); o.b = g.range(1, 1000); }
         else if (r < 92) { o.kind = 'k'; o.a = g.coin() ? g.range(0, 3) : int(g.next() & 0xffffff); }
         else { o.kind = 'S'; o.a = g.range(0, nshared - 1); }
+        o.cls = (g.range(0, 3) == 0) ? g.range(0, N_IC - 1) : go.cls;
         ops.push_back(o);
     }
     return ops;
+}
+
+// one large call: the first plan of a length above 2^16 (lesson: large single calls after smaller ones)
+static Op gen_large(vh::Rng& g, bool thorough, int mode = 0) {   // mode 1: number-theoretic lengths only, 2: block multiples only
+    Op o;
+    const int n = mode == 1 ? pick(g, LARGE_NT) : mode == 2 ? pick(g, LARGE_BLK) : thorough ? pick(g, LARGE) : pick(g, LARGE_Q);
+    switch (mode == 1 ? g.range(0, 4) : g.range(0, 9)) {   // mode 1: only calls whose plan length is n itself
+    case 0: case 1: case 2: o.kind = 'c'; o.a = n; break;
+    case 3: o.kind = 'r'; o.a = n; break;
+    case 4: o.kind = 'f'; o.a = n; break;
+    case 5: o.kind = 'i'; o.a = (n % 2 == 0) ? n : n + 1; break;
+    case 6: o.kind = 'x'; o.a = 65536 + g.range(1, 5000); o.b = g.range(1, 40); break;     // fft length 2^17
+    case 7: o.kind = 's'; o.a = (g.coin() ? 65536 : 131072) + g.range(0, 3000); o.b = g.range(1, 4) * 100 + g.range(1, 4); break;   // one frame above 2^16 / 2^17
+    case 8: o.kind = 'w'; o.a = (g.coin() ? 65536 : 131072) + g.range(0, 3000); o.b = 64 << g.range(0, 6); break;
+    default: o.kind = 'P'; o.a = n; break;
+    }
+    o.cls = (g.range(0, 3) == 0) ? IC_MIXED : IC_UNIT;
+    return o;
+}
+
+static std::string programs_json(const std::vector<std::vector<Op>>& progs, size_t budget) {
+    std::string s = "[";
+    for (size_t t = 0; t < progs.size(); ++t) {
+        std::string p = std::string(t ? "," : "") + "\"";
+        for (size_t i = 0; i < progs[t].size(); ++i) p += (i ? " " : "") + op_full(progs[t][i]);
+        p += "\"";
+        if (s.size() + p.size() > budget) { s += std::string(t ? "," : "") + "\"...\""; break; }
+        s += p;
+    }
+    return s + "]";
 }
 
 static std::string scenario_json(uint64_t seed, int idx, const char* creator, const std::vector<std::vector<Op>>& progs, int thread, int opi, const char* what) {
     std::string s = "{\"part\":\"mix\",\"seed\":" + std::to_string(seed) + ",\"scenario\":" + std::to_string(idx) + ",\"threads\":" + std::to_string(progs.size()) +
                     ",\"shared_plans_created_by\":\"" + creator + "\",\"what\":\"" + what + "\"";
     if (thread >= 0) s += ",\"thread\":" + std::to_string(thread) + ",\"op_index\":" + std::to_string(opi);
-    s += ",\"programs\":[";
-    size_t budget = 6500;
-    for (size_t t = 0; t < progs.size(); ++t) {
-        std::string p = std::string(t ? "," : "") + "\"";
-        for (size_t i = 0; i < progs[t].size(); ++i) p += (i ? " " : "") + op_str(progs[t][i]);
-        p += "\"";
-        if (s.size() + p.size() > budget) { s += std::string(t ? "," : "") + "\"...\""; break; }
-        s += p;
-    }
-    return s + "]}";
+    if (thread >= 0 && opi >= 0 && size_t(thread) < progs.size() && size_t(opi) < progs[size_t(thread)].size()) s += ",\"op\":\"" + op_full(progs[size_t(thread)][size_t(opi)]) + "\"";
+    s += ",\"programs\":" + programs_json(progs, 6000 - std::min<size_t>(s.size(), 3000));
+    return s + "}";
 }
 
-static void part_mix(vh::Rng& g, uint64_t seed, bool thorough) {
+// first difference of two result vectors, for witnesses
+static std::string diff_json(const std::vector<double>& ref, const std::vector<double>& got) {
+    size_t k = 0;
+    while (k < ref.size() && k < got.size() && bits_of(ref[k]) == bits_of(got[k])) ++k;
+    long long nzr = 0, nzg = 0;
+    for (double v : ref) if (v != 0) ++nzr;
+    for (double v : got) if (v != 0) ++nzg;
+    std::string s = "{\"size_ref\":" + std::to_string(ref.size()) + ",\"size_got\":" + std::to_string(got.size()) + ",\"nonzero_ref\":" + std::to_string(nzr) +
+                    ",\"nonzero_got\":" + std::to_string(nzg) + ",\"first_diff_index\":" + std::to_string(k);
+    if (k < ref.size() && k < got.size()) s += ",\"ref\":\"" + vh::hx(ref[k]) + "\",\"got\":\"" + vh::hx(got[k]) + "\",\"ref_value\":" + vh::jnum(ref[k]) + ",\"got_value\":" + vh::jnum(got[k]);
+    return s + "}";
+}
+
+static void op_stats(const Op& o) {
+    out.stat(std::string("op_") + o.kind);
+    out.stat(std::string("class_") + IC_NAME[o.cls]);
+    const char k = o.kind;
+    if (k == 'c' || k == 'f' || k == 'r' || k == 'i' || k == 'P') out.stat(std::string("len_") + len_class_nolib(o.a));
+}
+
+static void part_mix(vh::Rng& g, uint64_t seed, bool thorough, const std::vector<Shared>& shared_main) {
     const int cap = verif_fft_cache_capacity();
-    std::vector<std::shared_ptr<void>> keep_main, keep_helper;
+    std::vector<std::shared_ptr<void>> keep_helper;
     vh::set_current("C09:crash", "{\"part\":\"mix\",\"what\":\"constructing the shared plan objects\"}");
-    const std::vector<Shared> shared_main = make_shared_plans(keep_main);
     // second set: built by a helper thread that has ended (its thread_local caches are gone; the plans keep their sub-plans alive)
     std::vector<Shared> shared_helper;
     {
-        std::thread h([&] { shared_helper = make_shared_plans(keep_helper); });
+        EnvLog el;
+        std::thread h([&] { shared_helper = make_shared_plans(keep_helper, el, "helper thread that builds the second set of shared plans"); });
         h.join();
+        env_report(el);
     }
     vh::clear_current();
     for (auto& s : shared_main) out.stat(std::string("shared_kind_") + s.desc.substr(0, s.desc.find('(')));
     out.stat("shared_plan_objects", (long long)shared_main.size());
 
+    static const int CLS_CYCLE[] = {IC_UNIT, IC_DENORM, IC_UNIT, IC_UNDERFLOW, IC_MIXED, IC_UNIT, IC_TIES, IC_HUGE, IC_DENORM, IC_NONFINITE, IC_UNIT};
     const int nscen = thorough ? 2500 : 200;
     for (int sc = 0; sc < nscen; ++sc) {
         // thread counts: quick covers 2,3,4,8,16 and random ones; thorough every count in 2..16 many times
         int nt;
         if (thorough) nt = 2 + sc % 15;
         else { static const int q[] = {2, 3, 4, 8, 16, 5, 12}; nt = q[sc % 7]; }
-        const int flavour = (sc % 5 == 4) ? 1 : (sc % 5 == 3) ? 2 : (sc % 7 == 6) ? 3 : 0;
+        const bool large = thorough ? (sc % 40 == 13) : (sc == 13 || sc == 113);
+        if (large) nt = 2 + sc % 3;
+        GenOpt go;
+        go.flavour = (sc % 5 == 4) ? 1 : (sc % 5 == 3) ? 2 : (sc % 7 == 6) ? 3 : 0;
+        go.cls = CLS_CYCLE[sc % 11];
+        go.fail_pct = (sc % 2 == 0) ? 0 : (sc % 6 == 1) ? 30 : 8;
         const bool helper = (sc % 3 == 2);
         const std::vector<Shared>& shared = helper ? shared_helper : shared_main;
         const int len = thorough ? g.range(10, 40) : g.range(8, 24);
         std::vector<std::vector<Op>> progs;
-        for (int t = 0; t < nt; ++t) progs.push_back(gen_program(g, len, int(shared.size()), flavour));
+        for (int t = 0; t < nt; ++t) {
+            go.fail_first = (sc % 6 == 1) && (t % 2 == 1);   // a throwing call is the first thing some threads do
+            progs.push_back(gen_program(g, large ? 6 : len, int(shared.size()), go));
+        }
         if (sc % 4 == 1) {   // all threads run the SAME program (same lengths, same shared plans, same seeds at the same time)
             for (int t = 1; t < nt; ++t) progs[t] = progs[0];
         }
@@ -853,54 +1278,106 @@ static void part_mix(vh::Rng& g, uint64_t seed, bool thorough) {
             const int k = g.range(0, int(shared.size()) - 1);
             for (int t = 0; t < nt; ++t) for (int j = 0; j < 4 && j < int(progs[t].size()); ++j) { progs[t][j].kind = 'S'; progs[t][j].a = k; }
         }
-        const uint64_t sseed = seed * 1000 + sc;
-        const std::string js = scenario_json(seed, sc, helper ? "ended helper thread" : "main thread", progs, -1, 0, "ThreadSanitizer report / crash during the scenario");
-
-        // --- sequential reference: each program alone in a fresh thread
-        std::vector<ThreadResult> ref(nt), con(nt);
-        vh::set_current("C09:crash", js);
-        vh::watch(thorough ? 900 : 300);
-        for (int t = 0; t < nt; ++t) {
-            std::thread x([&, t] { run_program(progs[t], sseed, t, shared, ref[t]); });
-            x.join();
+        if (large) {   // small calls, then the first large plan(s) in all threads at about the same time, then small calls again
+            const int mode = thorough ? (sc / 40) % 3 : (sc == 13 ? 1 : 2);
+            const Op common = gen_large(g, thorough, mode);
+            for (int t = 0; t < nt; ++t) {
+                progs[t].insert(progs[t].begin() + 3, (t % 2 == 0) ? common : gen_large(g, thorough, mode));
+                if (t == 0 || thorough) progs[t].push_back(gen_large(g, thorough));
+            }
+            {   // streaming object: small frames, then the first frame above 2^16 and above 2^17
+                auto& p = progs[size_t(nt - 1)];
+                Op f; f.kind = 'F'; f.a = g.range(2, 70); p.push_back(f);
+                Op a; a.kind = 'p'; a.a = g.range(1, 300); p.push_back(a);
+                Op b; b.kind = 'p'; b.a = 65536 + g.range(1, 3000); p.push_back(b);
+                Op c; c.kind = 'p'; c.a = 131072 + g.range(1, 3000); c.cls = IC_MIXED; p.push_back(c);
+                a.a = g.range(1, 300); p.push_back(a);
+            }
         }
+        bool any_failing = false;
+        for (auto& p : progs) for (auto& o : p) if (is_failing(o.kind)) any_failing = true;
+        // odd scenarios (and the large ones): the concurrent run comes FIRST, the single-threaded references afterwards
+        const bool conc_first = large || (sc % 2 == 1);
+        const uint64_t sseed = seed * 1000 + sc;
+        const char* creator = helper ? "ended helper thread" : "main thread";
+        const std::string js = scenario_json(seed, sc, creator, progs, -1, 0, "ThreadSanitizer report / crash during the scenario");
+
+        std::vector<ThreadResult> ref(nt), con(nt), str(nt);
+        auto run_refs = [&] {
+            // --- sequential reference: each program alone in a fresh thread
+            vh::set_current("C09:crash", js);
+            for (int t = 0; t < nt; ++t) {
+                RunOpt o;
+                o.who = "scenario thread " + std::to_string(t) + " (its program alone)";
+                std::thread x([&, t] { run_program(progs[t], sseed, t, shared, ref[t], o); });
+                x.join();
+            }
+            // --- the same without the failing calls
+            if (any_failing)
+                for (int t = 0; t < nt; ++t) {
+                    RunOpt o;
+                    o.skip_failing = true;
+                    o.who = "scenario thread " + std::to_string(t) + " (its program alone, failing calls removed)";
+                    std::thread x([&, t] { run_program(progs[t], sseed, t, shared, str[t], o); });
+                    x.join();
+                }
+        };
+        vh::watch(thorough ? 3600 : 1200);
+        if (!conc_first) run_refs();
         // --- concurrent run from a barrier
         const int r0 = g_tsan_reports;
         vh::set_current("C09:data-race", js);
         {
             SpinBarrier bar(nt);
             std::vector<std::thread> th;
-            for (int t = 0; t < nt; ++t) th.emplace_back([&, t] { bar.wait(); run_program(progs[t], sseed, t, shared, con[t]); });
+            for (int t = 0; t < nt; ++t)
+                th.emplace_back([&, t] {
+                    RunOpt o;
+                    o.who = "scenario thread " + std::to_string(t) + " of " + std::to_string(nt) + " concurrent threads";
+                    bar.wait();
+                    run_program(progs[t], sseed, t, shared, con[t], o);
+                });
             for (auto& x : th) x.join();
         }
+        if (g_tsan_reports != r0) out.fail("C09:data-race", js);
+        if (conc_first) run_refs();
         vh::unwatch();
         vh::clear_current();
-        if (g_tsan_reports != r0) out.fail("C09:data-race", js);
 
         // --- compare
         for (int t = 0; t < nt; ++t) {
-            if (con[t].err != ref[t].err)
-                out.fail("C09:result-differs", scenario_json(seed, sc, helper ? "ended helper thread" : "main thread", progs, t, -1, "exception only in one of the two runs"));
+            env_report(ref[t].elog);
+            env_report(con[t].elog);
+            env_report(str[t].elog);
+            if (con[t].env_start != fpenv_default()) out.stat("threads_started_with_nondefault_fpenv");
+            bool unexpected_throw = false;
             for (size_t i = 0; i < progs[t].size(); ++i) {
                 out.n_oracle++;
-                out.stat(std::string("op_") + progs[t][i].kind);
-                const char k = progs[t][i].kind;
-                if (k == 'c' || k == 'f' || k == 'r' || k == 'i' || k == 'P') out.stat(std::string("len_") + len_class(progs[t][i].a));
-                if (!same_bits(con[t].res[i], ref[t].res[i]))
-                    out.fail("C09:result-differs", scenario_json(seed, sc, helper ? "ended helper thread" : "main thread", progs, t, int(i),
+                op_stats(progs[t][i]);
+                const bool failing = is_failing(progs[t][i].kind);
+                if (con[t].threw[i]) out.stat(failing ? "calls_that_threw_as_designed" : "calls_that_threw_unexpectedly");
+                if (con[t].threw[i] && !failing) unexpected_throw = true;
+                if (!con[t].threw[i] && failing && !(progs[t][i].kind == 'Q' && con[t].res[i].empty())) out.stat("failing_calls_that_did_not_throw");
+                if (con[t].threw[i] != ref[t].threw[i])
+                    out.fail("C09:result-differs", scenario_json(seed, sc, creator, progs, t, int(i), "exception only in one of the two runs (concurrent / same thread program alone)"));
+                else if (!same_bits(con[t].res[i], ref[t].res[i]))
+                    out.fail("C09:result-differs", scenario_json(seed, sc, creator, progs, t, int(i),
                                                                  "result of this call differs bitwise from the same thread program run alone"));
+                else if (any_failing && !failing && (con[t].threw[i] != str[t].threw[i] || !same_bits(con[t].res[i], str[t].res[i])))
+                    out.fail("C09:result-differs", scenario_json(seed, sc, creator, progs, t, int(i),
+                                                                 "result of this valid call differs bitwise from the same thread program run alone WITHOUT its failing (throwing) calls"));
             }
             if (con[t].kc != ref[t].kc || con[t].kr != ref[t].kr)
-                out.fail("C09:cache-state-differs", scenario_json(seed, sc, helper ? "ended helper thread" : "main thread", progs, t, -1,
+                out.fail("C09:cache-state-differs", scenario_json(seed, sc, creator, progs, t, -1,
                                                                   "final plan-cache keys differ from the same thread program run alone"));
             out.stat(int(con[t].kc.size()) >= cap ? "final_complex_cache_full" : "final_complex_cache_not_full");
             // CORR: the sequential LRU/factory model predicts the keys of this thread from its own calls only
-            if (con[t].err.empty()) {
+            if (!unexpected_throw) {
                 std::string lhs = "keys " + std::to_string(cap) + " " + std::to_string(progs[t].size());
                 for (auto& o : progs[t]) lhs += " " + op_str(o);
                 out.corr(lhs, "C " + std::to_string(con[t].kc.size()) + vh::join_ints(con[t].kc) + " R " + std::to_string(con[t].kr.size()) + vh::join_ints(con[t].kr));
             } else {
-                out.stat("programs_with_exception");
+                out.stat("programs_with_unexpected_exception");
             }
         }
         {   // CORR: the sharing pattern of this scenario is admitted by the model's table (premise `exclusive` of the theorems)
@@ -912,29 +1389,391 @@ static void part_mix(vh::Rng& g, uint64_t seed, bool thorough) {
             out.corr(lhs, "1");
         }
         out.stat("scenarios");
+        out.stat(conc_first ? "scenarios_concurrent_run_first" : "scenarios_reference_first");
+        if (any_failing) out.stat("scenarios_with_throwing_calls");
+        if (large) out.stat("scenarios_large_first_plans");
+        out.stat(std::string("scenario_class_") + IC_NAME[go.cls]);
         out.stat("threads_" + std::to_string(nt));
         out.stat(helper ? "shared_from_ended_thread" : "shared_from_main_thread");
         if (sc < 2) out.sample(js);
     }
 }
 
+// ================================================================================================
+// Part 4: floating-point environment and thread history (in this process: the main thread computes first)
+// ================================================================================================
+// every transform kind x every input class, with calls that throw in between
+static std::vector<Op> probe_program(vh::Rng& g, int nshared, int extra) {
+    struct K { char kind; int a, b; };
+    static const K kinds[] = {{'c', 64, 0}, {'c', 60, 0}, {'c', 61, 0}, {'c', 7, 0}, {'c', 8, 0}, {'c', 1024, 0}, {'f', 128, 0}, {'f', 45, 0}, {'r', 96, 0},
+                              {'r', 45, 0}, {'r', 47, 0}, {'i', 64, 0}, {'i', 90, 0}, {'x', 40, 25}, {'z', 10, 17}, {'w', 200, 32}, {'s', 120, 302},
+                              {'F', 17, 0}, {'p', 300, 0}, {'P', 360, 0}, {'q', 0, 0}};
+    std::vector<Op> pp;
+    auto add = [&](char k, int a, int b, int cls) { Op o; o.kind = k; o.a = a; o.b = b; o.cls = cls; pp.push_back(o); };
+    for (int cls = 0; cls < N_IC; ++cls) {
+        for (auto& k : kinds) {
+            add(k.kind, k.a, k.b, cls);
+            if (g.range(0, 6) == 0) { Op f = gen_failing(g, nshared, k.kind == 'q'); f.cls = cls; pp.push_back(f); }
+        }
+        add('e', 2 * g.range(1, 40) + 1, 0, cls);
+        add('Q', 0, 0, cls);
+        add('q', 0, 0, cls);
+        if (nshared > 0) {
+            for (int j = 0; j < 6; ++j) add('S', g.range(0, nshared - 1), 0, cls);
+            add('T', g.range(0, nshared - 1), 0, cls);
+            add('S', pp.back().a, 0, cls);
+        }
+        add('m', 2 * g.range(3, 40), 0, cls);
+        add('i', pp.back().a, 0, cls);
+    }
+    add('k', 7, 0, 0);
+    add('u', 5, 0, 0);
+    add('g', 5, 0, 0);
+    add('j', 5, 100, 0);
+    GenOpt go;
+    go.fail_pct = 10;
+    for (int i = 0; i < extra; ++i) {
+        go.cls = g.range(0, N_IC - 1);
+        go.flavour = (i % 3 == 0) ? 2 : 0;
+        auto more = gen_program(g, 1, nshared, go);
+        if (more[0].kind == 'k' || more[0].kind == 'u' || more[0].kind == 'g' || more[0].kind == 'j') continue;   // engine state differs between participants
+        pp.push_back(more[0]);
+    }
+    return pp;
+}
+
+struct Participant {
+    std::string who;
+    bool with_failing = true;
+    ThreadResult R;
+};
+
+// compares every participant with the reference; `what_ref` describes the reference in the witness
+static void compare_participants(const std::string& part, uint64_t seed, int round, const std::vector<Op>& pp, const std::vector<Shared>& shared,
+                                 const ThreadResult& ref, const std::string& what_ref, std::vector<Participant*>& ps) {
+    for (Participant* p : ps) {
+        env_report(p->R.elog);
+        for (size_t i = 0; i < pp.size(); ++i) {
+            const bool failing = is_failing(pp[i].kind);
+            if (failing) {
+                if (p->with_failing) {
+                    if (p->R.threw[i]) out.stat("calls_that_threw_as_designed");
+                    else if (!(pp[i].kind == 'Q' && p->R.res[i].empty())) out.stat("failing_calls_that_did_not_throw");
+                }
+                continue;
+            }
+            out.n_oracle++;
+            op_stats(pp[i]);
+            if (p->R.threw[i] == ref.threw[i] && same_bits(p->R.res[i], ref.res[i])) continue;
+            std::string js = "{\"part\":\"" + part + "\",\"seed\":" + std::to_string(seed) + ",\"round\":" + std::to_string(round) + ",\"what\":\"the same call on the same input returned a result that differs bitwise from " +
+                             what_ref + "\",\"thread\":\"" + esc(p->who) + "\",\"op_index\":" + std::to_string(i) + ",\"op\":\"" + op_full(pp[i]) + "\",\"call\":\"" + esc(op_desc(pp[i], shared)) +
+                             "\",\"threw\":" + std::to_string(int(p->R.threw[i])) + ",\"reference_threw\":" + std::to_string(int(ref.threw[i])) + ",\"difference\":" + diff_json(ref.res[i], p->R.res[i]) +
+                             ",\"thread_fp_environment_at_start\":" + fpenv_json(p->R.env_start) + ",\"program\":" + programs_json({pp}, 3500) + "}";
+            out.fail("C09:result-differs", js);
+        }
+    }
+}
+
+static void part_env(vh::Rng& g, uint64_t seed, bool thorough, Pool& pool, const std::vector<Shared>& shared, bool first_round_is_first_use) {
+    const int rounds = thorough ? 24 : 2;
+    const int ne = pool.size() - 1;   // early workers that take part; the last early worker only spawns a thread
+    for (int round = 0; round < rounds; ++round) {
+        const std::vector<Op> pp = probe_program(g, int(shared.size()), thorough ? 150 : (round == 0 ? 20 : 60));
+        const uint64_t sseed = seed * 77777 + uint64_t(round);
+        const std::string js = "{\"part\":\"fpenv\",\"seed\":" + std::to_string(seed) + ",\"round\":" + std::to_string(round) +
+                               ",\"what\":\"ThreadSanitizer report / crash while early, late and nested threads evaluate the probe program\",\"program\":" + programs_json({pp}, 6000) + "}";
+        vh::set_current("C09:crash", js);
+        vh::watch(thorough ? 3600 : 1200);
+        // --- reference 0: the main thread, before any other thread has made a library call (round 0), failing calls removed
+        Participant m0, m1;
+        m0.who = "main thread, before the other threads run";
+        m0.with_failing = false;
+        {
+            RunOpt o;
+            o.skip_failing = true;
+            o.query_keys = false;
+            o.who = m0.who;
+            run_program(pp, sseed, 0, shared, m0.R, o);
+        }
+        // --- concurrent phase
+        const int nl = thorough ? 2 + round % 6 : 3;
+        std::vector<std::unique_ptr<Participant>> ps;
+        auto mk = [&](const std::string& who) { ps.push_back(std::make_unique<Participant>()); ps.back()->who = who; ps.back()->with_failing = (ps.size() % 2 == 1); return ps.back().get(); };
+        std::vector<Participant*> early, late;
+        for (int i = 0; i < ne; ++i) early.push_back(mk("early thread " + std::to_string(i) + " (created by main before the first library call of the process)"));
+        Participant* nested_e = mk("thread created by an early thread (which itself has made no library call)");
+        for (int i = 0; i < nl; ++i) late.push_back(mk("late thread " + std::to_string(i) + " (created by main after main's library calls)"));
+        Participant* nested_l = mk("thread created by late thread 0 after that thread's library calls (runs after the barrier phase)");
+        const int nbar = ne + 1 + nl;
+        SpinBarrier bar(nbar);
+        auto body = [&](Participant* p, bool at_barrier) {
+            RunOpt o;
+            o.skip_failing = !p->with_failing;
+            o.query_keys = false;
+            o.who = p->who;
+            if (at_barrier) bar.wait();
+            run_program(pp, sseed, 0, shared, p->R, o);
+        };
+        const int r0 = g_tsan_reports;
+        vh::set_current("C09:data-race", js);
+        for (int i = 0; i < ne; ++i) pool.start(i, [&, i] { body(early[size_t(i)], true); });
+        pool.start(ne, [&] { std::thread x([&] { body(nested_e, true); }); x.join(); });
+        std::vector<std::thread> th;
+        for (int i = 0; i < nl; ++i)
+            th.emplace_back([&, i] {
+                body(late[size_t(i)], true);
+                if (i == 0) { std::thread x([&] { body(nested_l, false); }); x.join(); }
+            });
+        for (auto& x : th) x.join();
+        for (int i = 0; i <= ne; ++i) pool.wait(i);
+        if (g_tsan_reports != r0) out.fail("C09:data-race", js);
+        // --- reference 1: the main thread again, after all threads have finished, WITH the failing calls
+        m1.who = "main thread, after all other threads finished";
+        {
+            RunOpt o;
+            o.query_keys = false;
+            o.who = m1.who;
+            run_program(pp, sseed, 0, shared, m1.R, o);
+        }
+        vh::unwatch();
+        vh::clear_current();
+        env_report(m0.R.elog);
+        std::vector<Participant*> all;
+        for (auto& p : ps) all.push_back(p.get());
+        all.push_back(&m1);
+        compare_participants("fpenv", seed, round, pp, shared, m0.R,
+                             round == 0 && first_round_is_first_use
+                                 ? "the single-threaded result of the main thread computed before any other thread made a library call"
+                                 : "the single-threaded result of the main thread computed before the threads of this round started",
+                             all);
+        for (auto& p : ps) if (p->R.env_start != fpenv_default()) out.stat("threads_started_with_nondefault_fpenv");
+        out.stat("fpenv_rounds");
+        out.stat("fpenv_participants", (long long)all.size() + 1);
+        out.stat("fpenv_probe_calls", (long long)pp.size() * ((long long)all.size() + 1));
+        if (round == 0) out.sample("{\"part\":\"fpenv\",\"round\":0,\"participants\":" + std::to_string(all.size() + 1) + ",\"program\":" + programs_json({pp}, 1500) + "}");
+    }
+}
+
+// ================================================================================================
+// Part 5: process histories (child mode `--history k`): the FIRST library calls of a fresh process are made by worker
+// threads released from a barrier; the main thread recomputes everything single-threaded only afterwards.
+// ================================================================================================
+static const char* const HISTORY_NAME[] = {"workers-first subnormal probes", "workers-first large plans", "workers-first throwing calls"};
+static const int N_HISTORY = 3;
+
+static int history_main(int h, uint64_t seed, bool thorough) {
+    vh::Rng g(seed * 0x9E3779B97F4A7C15ULL + 4242 + uint64_t(h) * 101);
+    const std::vector<Shared> noshared;
+    const FpEnv pristine = fpenv_now();
+    const std::string hist = std::string("\"history\":\"fresh process, ") + HISTORY_NAME[h] + "\",\"history_id\":" + std::to_string(h) + ",\"seed\":" + std::to_string(seed);
+    if (pristine != fpenv_default())
+        out.fail("C09:fp-environment-changed", "{" + hist + ",\"what\":\"the floating-point environment of the main thread is not the default one when main() starts (static initialisation of the library?)\",\"after\":" +
+                                                   fpenv_json(pristine) + ",\"default\":" + fpenv_json(fpenv_default()) + "}");
+    const int nt = (h == 1) ? (thorough ? 6 : 4) : (thorough ? 8 : 5);
+    std::vector<std::vector<Op>> progs;
+    bool same_inputs = false;
+    if (h == 0) {
+        same_inputs = true;
+        const auto pp = probe_program(g, 0, thorough ? 120 : 30);
+        for (int t = 0; t < nt; ++t) progs.push_back(pp);
+    } else if (h == 1) {
+        const Op common = gen_large(g, true, 1 + int(seed % 2));
+        for (int t = 0; t < nt; ++t) {
+            std::vector<Op> p;
+            if (t % 3 == 2) { Op s; s.kind = 'c'; s.a = 60; p.push_back(s); }     // some threads make a small call first
+            p.push_back((t % 2 == 0) ? common : gen_large(g, true, 1));
+            GenOpt go;
+            go.cls = (t % 2) ? IC_MIXED : IC_UNIT;
+            for (auto& o : gen_program(g, 3, 0, go)) p.push_back(o);
+            p.push_back(gen_large(g, thorough));
+            progs.push_back(p);
+        }
+    } else {
+        for (int t = 0; t < nt; ++t) {
+            GenOpt go;
+            go.cls = g.range(0, N_IC - 1);
+            go.fail_pct = 25;
+            go.fail_first = (t % 2 == 0);
+            go.flavour = (t % 3 == 0) ? 2 : 0;
+            progs.push_back(gen_program(g, thorough ? 40 : 20, 0, go));
+        }
+    }
+    const std::string js = "{" + hist + ",\"threads\":" + std::to_string(nt) + ",\"what\":\"ThreadSanitizer report / crash\",\"programs\":" + programs_json(progs, 5000) + "}";
+    std::vector<ThreadResult> con(nt), ref(nt);
+    vh::watch(thorough ? 3600 : 1500);
+    vh::set_current("C09:data-race", js);
+    const int r0 = g_tsan_reports;
+    {
+        SpinBarrier bar(nt);
+        std::vector<std::thread> th;
+        for (int t = 0; t < nt; ++t)
+            th.emplace_back([&, t] {
+                RunOpt o;
+                o.who = "worker thread " + std::to_string(t) + " of " + std::to_string(nt) + " (created before the first library call of the process; fresh process, " + HISTORY_NAME[h] + ")";
+                bar.wait();
+                run_program(progs[t], seed, same_inputs ? 0 : t, noshared, con[t], o);
+            });
+        for (auto& x : th) x.join();
+    }
+    if (g_tsan_reports != r0) out.fail("C09:data-race", js);
+    vh::set_current("C09:crash", js);
+    // references afterwards: h = 0 in the main thread itself, otherwise each program alone in a fresh thread; failing calls removed
+    for (int t = 0; t < nt; ++t) {
+        RunOpt o;
+        o.skip_failing = true;
+        o.who = (h == 0) ? "main thread, after all worker threads finished" : "fresh thread created by main after all worker threads finished (program " + std::to_string(t) + " alone)";
+        if (h == 0) {
+            if (t == 0) run_program(progs[0], seed, 0, noshared, ref[0], o);
+        } else {
+            std::thread x([&, t] { run_program(progs[t], seed, t, noshared, ref[t], o); });
+            x.join();
+        }
+    }
+    vh::unwatch();
+    vh::clear_current();
+    for (int t = 0; t < nt; ++t) {
+        Participant p;
+        p.who = "worker thread " + std::to_string(t) + " of " + std::to_string(nt) + " (created before the first library call of the process; " + HISTORY_NAME[h] + ")";
+        p.R = std::move(con[t]);
+        std::vector<Participant*> one{&p};
+        compare_participants(std::string("history ") + HISTORY_NAME[h], seed, t, progs[t], noshared, h == 0 ? ref[0] : ref[t],
+                             "the single-threaded result computed after all worker threads had finished (failing calls removed)", one);
+        if (h != 0) env_report(ref[t].elog);
+    }
+    if (h == 0) env_report(ref[0].elog);
+    if (fpenv_now() != pristine)
+        out.fail("C09:fp-environment-changed", "{" + hist + ",\"what\":\"the floating-point environment of the main thread at the end of the run differs from the one at the start\",\"thread\":\"main\",\"before\":" +
+                                                   fpenv_json(pristine) + ",\"after\":" + fpenv_json(fpenv_now()) + ",\"changed\":\"" + fpenv_changed(pristine, fpenv_now()) + "\"}");
+    out.stat("histories");
+    out.stat("history_threads", nt);
+    out.stat("env_checks", g_env_checks);
+    out.stat("tsan_reports", g_tsan_reports);
+    for (auto& kv : g_env_kind) std::printf("E %c %lld %lld\n", kv.first, kv.second.first, kv.second.second);
+    out.finish();
+    std::printf("DONE\n");
+    std::fflush(stdout);
+    vh::set_current("C09:data-race", "{" + hist + ",\"what\":\"ThreadSanitizer reported a data race (see stderr_tail)\"}");
+    return 0;
+}
+
+// parent side: runs `self --history h` and relays its F / S lines
+static void part_histories(const std::string& self, uint64_t seed, bool thorough) {
+    const int reps = thorough ? 6 : 1;
+    for (int rep = 0; rep < reps; ++rep)
+        for (int h = 0; h < N_HISTORY; ++h) {
+            const uint64_t cseed = seed * 100 + uint64_t(rep);
+            const std::string cmd = "'" + self + "' --history " + std::to_string(h) + " --seed " + std::to_string(cseed) + " --tier " + (thorough ? "thorough" : "quick");
+            const std::string js = std::string("{\"part\":\"history\",\"history\":\"fresh process, ") + HISTORY_NAME[h] + "\",\"history_id\":" + std::to_string(h) + ",\"seed\":" + std::to_string(cseed) +
+                                   ",\"what\":\"the child process crashed / hung / ended without completing\",\"command\":\"" + esc(cmd) + "\"}";
+            vh::set_current("C09:crash", js);
+            vh::watch(thorough ? 4000 : 1800);
+            std::fflush(stdout);
+            FILE* f = popen(cmd.c_str(), "r");
+            if (!f) { out.stat("history_spawn_failed"); vh::unwatch(); vh::clear_current(); continue; }
+            bool done = false;
+            int relayed = 0;
+            std::string line;
+            char buf[16384];
+            while (std::fgets(buf, sizeof buf, f)) {
+                line += buf;
+                if (line.empty() || line.back() != '\n') continue;
+                line.pop_back();
+                if (line == "DONE") done = true;
+                else if (line.rfind("F ", 0) == 0) {
+                    const size_t sp = line.find(' ', 2);
+                    if (sp != std::string::npos) { out.fail(line.substr(2, sp - 2), line.substr(sp + 1)); ++relayed; }
+                } else if (line.rfind("E ", 0) == 0 && line.size() > 4) {
+                    long long a = 0, b = 0;
+                    if (std::sscanf(line.c_str() + 4, "%lld %lld", &a, &b) == 2) { g_env_kind[line[2]].first += a; g_env_kind[line[2]].second += b; }
+                } else if (line.rfind("S ", 0) == 0) {
+                    const size_t sp = line.find(' ', 2);
+                    if (sp != std::string::npos) {
+                        const std::string k = line.substr(2, sp - 2);
+                        const long long v = std::atoll(line.c_str() + sp + 1);
+                        if (k == "oracle_evaluations") out.n_oracle += v;
+                        else if (k == "oracle_failures" || k == "corr_cases") {}
+                        else if (k == "env_checks") g_env_checks += v;
+                        else out.stat((k.rfind("hist", 0) == 0 ? "" : "history_") + k, v);
+                    }
+                }
+                line.clear();
+            }
+            const int st = pclose(f);
+            vh::unwatch();
+            vh::clear_current();
+            const int code = WIFEXITED(st) ? WEXITSTATUS(st) : -1;
+            out.stat("history_processes");
+            if ((!done || code != 0) && relayed == 0)
+                out.fail(code == 66 ? "C09:data-race" : "C09:crash",
+                         std::string("{\"part\":\"history\",\"history\":\"fresh process, ") + HISTORY_NAME[h] + "\",\"history_id\":" + std::to_string(h) + ",\"seed\":" + std::to_string(cseed) +
+                             ",\"what\":\"the child process did not complete cleanly\",\"completed\":" + (done ? "true" : "false") + ",\"wait_status\":" + std::to_string(st) +
+                             ",\"exit_code\":" + std::to_string(code) + ",\"signal\":" + std::to_string(WIFSIGNALED(st) ? WTERMSIG(st) : 0) + ",\"command\":\"" + esc(cmd) + "\"}");
+        }
+}
+
 int main(int argc, char** argv) {
     vh::Args args(argc, argv);
     vh::install_guards();
+    int history = -1;
+    for (int i = 1; i + 1 < argc; ++i) if (std::string(argv[i]) == "--history") history = std::atoi(argv[i + 1]);
+    if (history >= 0) return history_main(history % N_HISTORY, args.seed, args.thorough);
+
+    // nothing below has called the library yet
+    const FpEnv pristine = fpenv_now();
+    if (pristine != fpenv_default())
+        out.fail("C09:fp-environment-changed", "{\"what\":\"the floating-point environment of the main thread is not the default one when main() starts (static initialisation of the library?)\",\"after\":" +
+                                                   fpenv_json(pristine) + ",\"default\":" + fpenv_json(fpenv_default()) + "}");
+    std::string self;
+    {
+        std::error_code ec;
+        auto p = std::filesystem::read_symlink("/proc/self/exe", ec);
+        self = ec ? std::string(argv[0]) : p.string();
+    }
+    // Part 5 first: this process is still single-threaded
+    part_histories(self, args.seed, args.thorough);
+    std::fflush(stdout);
+
+    // worker threads that exist before the first library call of this process
+    Pool pool(4);
+    for (int i = 0; i < pool.size(); ++i) { pool.start(i, [] {}); pool.wait(i); }
+    for (int i = 0; i < pool.size(); ++i) if (pool.env0(i) != pristine) out.stat("early_threads_started_with_nondefault_fpenv");
+
     vh::Rng g(args.seed * 0x9E3779B97F4A7C15ULL + 909);
     const char* repo = std::getenv("VERIF_REPO");
     scan::run(repo && *repo ? repo : "/repo");
     scan::report();
     std::fflush(stdout);
+
+    // the first library calls of this process: the main thread builds the shared plan objects (each constructor is environment-checked)
+    std::vector<std::shared_ptr<void>> keep_main;
+    std::vector<Shared> shared_main;
+    {
+        EnvLog el;
+        vh::set_current("C09:crash", "{\"part\":\"fpenv\",\"what\":\"constructing the shared plan objects in the main thread\"}");
+        shared_main = make_shared_plans(keep_main, el, "main thread (first library calls of the process)");
+        vh::clear_current();
+        env_report(el);
+    }
+    {
+        vh::Rng ge(args.seed * 0x9E3779B97F4A7C15ULL + 31337);
+        part_env(ge, args.seed, args.thorough, pool, shared_main, true);
+    }
+    std::fflush(stdout);
     part_rng(g, args.thorough);
     std::fflush(stdout);
-    part_mix(g, args.seed, args.thorough);
+    part_mix(g, args.seed, args.thorough, shared_main);
+    if (fpenv_now() != pristine)
+        out.fail("C09:fp-environment-changed", "{\"what\":\"the floating-point environment of the main thread at the end of the run differs from the one at the start\",\"thread\":\"main\",\"before\":" +
+                                                   fpenv_json(pristine) + ",\"after\":" + fpenv_json(fpenv_now()) + ",\"changed\":\"" + fpenv_changed(pristine, fpenv_now()) + "\"}");
+    out.n_oracle++;
 #ifdef C09_TSAN
     out.stat("tsan_build", 1);
 #else
     out.stat("tsan_build", 0);
 #endif
     out.stat("tsan_reports", g_tsan_reports);
+    out.stat("fp_environment_checks", g_env_checks);
+    env_corr();
     out.finish();
     // a ThreadSanitizer report that was not attributed above still makes the runtime exit with its
     // exit code at finalisation; the death callback then prints this line
